@@ -141,7 +141,9 @@ def _chunk(args):
     cfgname, seed, lines = args
     col = core.Collector()
     for ln in lines:
-        check_case(col, cfgname, json.loads(ln), seed)
+        t = json.loads(ln)
+        core.guarded(col, lambda: check_case(col, cfgname, t, seed), "fdd.SD_PreGER", f"layouts {t['cfg']['lays']} {t['cfg']['par']}",
+                     {"config": cfgname, "transition": t, "seed": seed})
         col.traces += 1
     return col
 
